@@ -83,8 +83,8 @@ def tlc_model(pid, wd, consts):
         if k not in seen:
             seen.add(k)
             out.append(o)
-    if not out:
-        raise vlib.CheckError("spec/Sig.tla printed no %s records" % tag)
+    if not out or 2 * len(out) != r.distinct:
+        raise vlib.CheckError("spec/Sig.tla printed %d %s records for %d evaluated cases" % (len(out), tag, r.distinct // 2))
     out.sort(key=lambda o: json.dumps(o, sort_keys=True))
     return r, out
 
@@ -166,12 +166,14 @@ def validate(pid, wd, consts, results, tag):
         for o in results:
             f.write(json.dumps({k: o[k] for k in TRACE_KEYS}) + "\n")
     cfg = "MC_sigtrace.%s.cfg" % tag
-    write_cfg(wd, cfg, consts, "TInit", "TNext", trace=tf)
-    r = vlib.run_tlc("SigTrace", cfg, SPEC_FILES, workdir=wd, timeout=2400, keep_prints=["VIOL", "DRIFT", "UNBOUND", "COLLIDE"], heap="8g")
+    # the enumeration constants are not used by the trace specification (the expectation is recomputed from each recorded case)
+    write_cfg(wd, cfg, dict(MaxN=2, MaxL=1, FullL=1, CatL=[1], Kinds="one"), "TInit", "TNext", trace=tf)
+    r = vlib.run_tlc("SigTrace", cfg, SPEC_FILES, workdir=wd, timeout=2400, keep_prints=["REC"], heap="8g")
     if r.violation:
         raise vlib.CheckError("trace validation failed in TLC (%s)\n%s" % (r.violation, r.out[-3000:]))
-    if r.distinct != 2 * len(results):
-        raise vlib.CheckError("trace validation consumed %d of %d results\n%s" % (r.distinct // 2, len(results), r.out[-2000:]))
+    ids = sorted(o["id"] for _, o in r.prints)
+    if r.distinct != 2 * len(results) or ids != sorted(o["id"] for o in results):
+        raise vlib.CheckError("trace validation consumed %d and reported on %d of %d results\n%s" % (r.distinct // 2, len(ids), len(results), r.out[-2000:]))
     return r
 
 
@@ -208,31 +210,31 @@ def describe_case(c):
 
 
 def judge(pid, verdict, results, gmap, r):
-    """turn TLC's records into verdicts / drift / notes; returns (drift counter, unbound list)"""
+    """turn TLC's records into verdicts / drift / notes; returns (drift counter, unbound fields, collisions, number of false monitors)"""
     byid = {o["id"]: o for o in results}
     drift = collections.Counter()
     unbound = collections.OrderedDict()
     collisions = 0
-    for t, o in r.prints:
-        res = byid.get(o.get("id"))
-        if res is None:
-            raise vlib.CheckError("TLC reported on an unknown result id %r" % (o,))
-        if t == "VIOL":
+    nviol = 0
+    for _, o in sorted(r.prints, key=lambda x: x[1]["id"]):
+        res = byid[o["id"]]
+        c = res["c"]
+        name = "%s.%s%s" % (c["sch"], c["obj"], "." + c["field"] if c["field"] else "")
+        for mon in sorted(o["viol"]):
+            nviol += 1
             g = gmap[res["gid"]]
-            replay_obj = dict(property=pid, engine="sig", monitor=o["mon"], predicted_by_model_of_code_as_written=o["predicted"],
-                              group=dict(g, cases=[dict(id=res["id"], c=res["c"])]), result=res)
-            verdict.violation(signature(o), "%s: %s; case: %s; library: v1=%s v2=%s v3=%s same_bytes=%s stage=%s eq=%s %s" % (
-                o["mon"], MON_TEXT.get(o["mon"], ""), describe_case(res["c"]), res["v1"], res["v2"], res["v3"], res["same"], res["stage"], res["eq"],
+            replay_obj = dict(property=pid, engine="sig", monitor=mon, predicted_by_model_of_code_as_written=mon in o["predicted"],
+                              group=dict(g, cases=[dict(id=res["id"], c=c)]), result=res)
+            verdict.violation(signature(dict(o, mon=mon)), "%s: %s; case: %s; library: v1=%s v2=%s v3=%s same_bytes=%s stage=%s eq=%s %s" % (
+                mon, MON_TEXT.get(mon, ""), describe_case(c), res["v1"], res["v2"], res["v3"], res["same"], res["stage"], res["eq"],
                 res["err"][:120]), replay_obj)
-        elif t == "DRIFT":
-            k = o["kind"]
-            c = res["c"]
-            drift["%s.%s%s: %s" % (c["sch"], c["obj"], "." + c["field"] if c["field"] else "", k)] += 1
-        elif t == "UNBOUND":
-            unbound.setdefault("%s.%s%s/%s" % (o["sch"], o["obj"], "." + o["field"] if o["field"] else "", o["kind"]), o["real"])
-        elif t == "COLLIDE":
+        for k in o["drift"]:
+            drift["%s: %s" % (name, k)] += 1
+        if o["unbound"]:
+            unbound.setdefault("%s/%s" % (name, c["kind"]), o["real"])
+        if o["collide"]:
             collisions += 1
-    return drift, unbound, collisions
+    return drift, unbound, collisions, nviol
 
 
 def sample_of(res):
@@ -275,23 +277,20 @@ def run(pid):
     log("%s driver: %r" % (pid, summary))
     r2 = validate(pid, wd, consts, results, "main")
     log("%s validation: %r" % (pid, r2))
-    drift, unbound, collisions = judge(pid, verdict, results, gmap, r2)
+    drift, unbound, collisions, nviol_lines = judge(pid, verdict, results, gmap, r2)
     for k, v in sorted(drift.items()):
         print("DRIFT property=%s count=%d kind=%s" % (pid, v, k))
     for k, real in unbound.items():
         print("NOTE property=%s the model says %s is not bound by any equation or oracle input although the property demands it; library verdict: %s"
               % (pid, k, real))
-    selftest = None
-    if tr == "thorough" or os.environ.get("VERIF_SIG_SELFTEST"):
-        selftest = self_test(pid, wd, consts, results)
+    selftest = self_test(pid, wd, consts, results)
     rcode = verdict.finish()
-    nviol_lines = sum(1 for t, _ in r2.prints if t == "VIOL")
     accepted = sum(1 for o in results if o["v1"])
     samples = [sample_of(results[i]) for i in sorted(set([0, len(results) // 3, 2 * len(results) // 3, len(results) - 1]))]
     cov = dict(
         states=max(r1.distinct + r2.distinct, 1), transitions=max(r1.generated + r2.generated, 1),
         traces_validated_against_impl=len(results), samples=samples,
-        exhaustive=(tr == "thorough"),
+        exhaustive=len(results) == len(cases),
         configs=[dict(spec="Sig", constants=consts, distinct=r1.distinct, generated=r1.generated),
                  dict(spec="SigTrace", results=len(results), distinct=r2.distinct, generated=r2.generated)],
         cases_executed=len(results), accepted=accepted, rejected=len(results) - accepted, dkg_sessions=summary["dkgs"],
@@ -347,7 +346,7 @@ def self_test(pid, wd, consts, results):
     if not bad:
         raise vlib.CheckError("self test: no result to corrupt")
     r = validate(pid, wd, consts, bad, "selftest")
-    got = set((o["id"], o["mon"]) for t, o in r.prints if t == "VIOL")
+    got = set((o["id"], mon) for _, o in r.prints for mon in o["viol"])
     missing = [w for w in want if w not in got]
     if missing:
         raise vlib.CheckError("self test: corrupted results were not flagged by the monitors: %r" % missing)
@@ -371,7 +370,7 @@ def replay(pid, path):
         print("case: %s\n  library: v1=%s v2=%s v3=%s same_bytes=%s stage=%s eq=%s err=%s" % (
             describe_case(res["c"]), res["v1"], res["v2"], res["v3"], res["same"], res["stage"], res["eq"], res["err"]))
     r2 = validate(pid, wd, consts, results, "replay")
-    drift, unbound, _ = judge(pid, verdict, results, {g["gid"]: g}, r2)
+    drift, unbound, _, _ = judge(pid, verdict, results, {g["gid"]: g}, r2)
     for k, v in sorted(drift.items()):
         print("DRIFT property=%s count=%d kind=%s" % (pid, v, k))
     return verdict.finish()
